@@ -36,8 +36,11 @@ TABLE = {
                                         ('rt_namer.py', 'run-time evaluation of the new_symbol contract')],
                 explanation='proved: Namer.new_symbol never returns a name of the namespace, a reserved name (QNs flattened) or an earlier '
                             'generated name; assumed with a bounded stand-in: every call site reserves the names visible to the user code'),
-    'C12': dict(level='other', bounded=[('c12_errors.py', 'one failing statement at any position/depth, callee chains <= 4, traceback and source-map oracle')],
-                explanation='bounded stand-in in this revision (create_exception / stack translation contracts pending)'),
+    'C12': dict(level='other', bounded=[('c12_errors.py', 'one failing statement at any position/depth, callee chains <= 4, traceback and source-map oracle'),
+                                        ('rt_errors.py', 'run-time evaluation of the create_exception decision table over an exception-class zoo')],
+                explanation='proved (event mode): ErrorMetadataBase.create_exception and api._ErrorMetadata.create_exception are trace-equivalent '
+                            'to the decision table taken from the property (same type iff no initialiser of its own or listed; KeyError subclass; '
+                            'StagingError otherwise); assumed with a bounded stand-in: stack translation and the source map'),
     'C13': dict(level='other', bounded=[('c13_zoo.py', 'callable zoo x argument shapes x options x injected pipeline failures')],
                 explanation='proved: conversion-rule matching (Rule.matches: exact module or dotted prefix) and the allow-list cache '
                             'structure; assumed with a bounded stand-in: the converted_call decision chain'),
